@@ -731,7 +731,11 @@ func (ep *ringEp) call(t *rthread, c rcall) string {
 	case <-time.After(ringDeadline):
 		ep.over = true
 		ringHangs++
-		return "hang"
+		// what the stuck call waits for and what the other side has committed (for the oracle:
+		// a call that waits for bytes nobody committed is blocked legitimately)
+		n, h := ep.needHave(t)
+		_, _, _, d := ep.b.VerifCursors()
+		return fmt.Sprintf("hang %s:%d:%d@d%s", t.name, n, h, b01(d))
 	}
 }
 
